@@ -56,10 +56,24 @@ for _fl in ("global", "thread", "async"):
         SYSTEMATIC.append(dict(flavour=_fl, policy=_pol, limit=(len(SYSTEMATIC) % 2 == 0), maxmem=True, inv_on=(len(SYSTEMATIC) % 4 == 1), cache_if=True))
 
 
+# further signature shapes (appended after the systematic block so that the earlier functions keep their numbers):
+# two integers without a receiver, methods with a string + integer and with three scalar arguments, a vector, a tuple,
+# an option + float — each once as a sync global function and once as an async one, LRU with limit 2
+EXTRA_SIGS = [
+    ("x1", None, [("a", "u32", "arg_u32"), ("b", "u32", "arg_u32b")]),
+    ("x2", "&self", [("s", "&str", "arg_str"), ("n", "i64", "arg_i64")]),
+    ("x3", "&self", [("a", "u8", "arg_u8"), ("b", "bool", "arg_bool"), ("c", "char", "arg_char")]),
+    ("x4", None, [("v", "Vec<u32>", "arg_vec_u32")]),
+    ("x5", None, [("t", "(u32, String)", "arg_tuple")]),
+    ("x6", "&mut self", [("o", "Option<u32>", "arg_opt_u32"), ("f", "f64", "arg_f64")]),
+]
+EXTRA = [(sig, fl) for sig in EXTRA_SIGS for fl in ("global", "async")]
+
+
 def gen(seed, n):
     """the first 48 functions are random (seeded); then the 4 fixed ones (plain, F7 witnesses); then the systematic
     block: flavour x policy with limit + invalidate_on, and flavour x policy with max_memory + cache_if"""
-    base_n = n - len(SYSTEMATIC)
+    base_n = n - len(SYSTEMATIC) - len(EXTRA)
     fns = gen_random(seed, base_n)
     rng = random.Random(seed * 7 + 3)
     for k, sy in enumerate(SYSTEMATIC):
@@ -75,6 +89,11 @@ def gen(seed, n):
                         sig=SIGS[1 + k % 4], ret=RETS[(k % 3) if not sy["maxmem"] else 1 + k % 2],
                         name=None, tags=[TAGS[k % 3]] if k % 2 == 0 else [], events=[], deps=[],
                         cache_if=sy["cache_if"], inv_on=sy["inv_on"], thread_scope=thread_scope))
+    for k, (sig, fl) in enumerate(EXTRA):
+        i = base_n + len(SYSTEMATIC) + k
+        fns.append(dict(i=i, real_result=False, is_async=(fl == "async"), policy="lru", limit=2, maxmem=None, ttl=None, fw=None,
+                        scope=("global" if fl == "global" and k % 4 == 0 else None), sig=sig, ret=RETS[0], name=None,
+                        tags=[], events=[], deps=[], cache_if=False, inv_on=False, thread_scope=False))
     return fns
 
 
